@@ -94,9 +94,10 @@ claim("C12", "proof",
       "complete_basic_block: the lifted CFG has an entry block without predecessors, mirrored and in-range successor/predecessor sets, a "
       "smaller-indexed predecessor for every other block, hence every block is reachable, 'i dominates j' implies i <= j, and the graph is "
       "Rooted so that all of C15 applies to it (the DominatorTree asserts cannot fire); a branch is only ever the last statement of its "
-      "block (C12_branch_last). PARTIAL: the clauses 'branch targets among the successors', 'at most two successors' and 'recorded loop "
-      "depth' are not yet proved for all inputs; they are "
-      "part of the executable predicate CfgSpec.wfProblems (dominance from the verified C15 computation), evaluated on every real CFG before "
+      "block (C12_branch_last), its targets are existing blocks among the successors and no block has more than two successors, one without a "
+      "branch (C12_branch_targets, C12_successors: every block is in one of five classes), and the recorded depth of a block is the source loop "
+      "nesting depth of every statement in it (C12_loop_depth). Every clause of C12 is thus a theorem about the lifting model; the executable "
+      "predicate CfgSpec.wfProblems (all clauses, dominance from the verified C15 computation) is evaluated on every real CFG before "
       "and after SSA. Tie: the model run on the real AST reproduces the real CFG block for block on hand-written nesting patterns and "
       "generated definitions.",
       "Lean kernel + standard axioms; statements are abstracted to skeletons (non-control statements are opaque); the parser's expansion of "
